@@ -128,9 +128,11 @@ Definition pair_check (script bs lang bl : list N) : bool :=
   | Some (s, l) => list_eqb s script && list_eqb l lang
   | None => false
   end.
+Definition pair_check_e (se le : list N * list N) : bool :=
+  pair_check (fst se) (snd se) (fst le) (snd le).
+Definition otf_lang_entries : list (list N * list N) := ([], und) :: gtab_langBcp47.
 Definition otf_all_ok : bool :=
-  forallb (fun se => forallb (fun le => pair_check (fst se) (snd se) (fst le) (snd le))
-                             (([], und) :: gtab_langBcp47)) gtab_scriptBcp47.
+  forallb (fun se => forallb (fun le => pair_check_e se le) otf_lang_entries) gtab_scriptBcp47.
 
 Fixpoint keys_unique {V} (l : list (list N * V)) : bool :=
   match l with
